@@ -587,7 +587,122 @@ pub fn run(args: &Args, sink: &mut Sink, asyncf: bool) {
         run_case_init(sink, &format!("R{k}"), r.chance(1, 2), asyncf, &seq, init);
     }
     run_cross(sink, asyncf);
+    run_wakers(sink, asyncf);
     if asyncf { run_guards(args, sink); }
+}
+
+// ---------------------------------------------------------------------------------------------------------
+// wakers and long-lived futures (oracles only; the lines are `xcf` notes): (a) wakers that share their data pointer and
+// differ only in their vtable, (b) many registrations between two updates, (c) one `next()` / `next_ref()` future
+// polled several times with different wakers, (d) the counts while such a future is pending
+mod slotw {
+    use std::sync::atomic::{AtomicBool, Ordering};
+    use std::task::{RawWaker, RawWakerVTable, Waker};
+    pub static WOKEN: [AtomicBool; 4] = [AtomicBool::new(false), AtomicBool::new(false), AtomicBool::new(false), AtomicBool::new(false)];
+    fn raw<const K: usize>() -> RawWaker {
+        fn cl<const K: usize>(_: *const ()) -> RawWaker { raw::<K>() }
+        fn wk<const K: usize>(_: *const ()) { WOKEN[K].store(true, Ordering::SeqCst); }
+        fn no(_: *const ()) {}
+        // one vtable per slot; the data pointer is the same (null) for all of them
+        struct VT<const K: usize>;
+        impl<const K: usize> VT<K> { const V: RawWakerVTable = RawWakerVTable::new(cl::<K>, wk::<K>, wk::<K>, no); }
+        RawWaker::new(std::ptr::null(), &VT::<K>::V)
+    }
+    pub fn waker(k: usize) -> Waker {
+        // SAFETY: the vtable functions ignore the data pointer and touch only a static
+        unsafe { match k { 0 => Waker::from_raw(raw::<0>()), 1 => Waker::from_raw(raw::<1>()), 2 => Waker::from_raw(raw::<2>()), _ => Waker::from_raw(raw::<3>()) } }
+    }
+    pub fn reset() { for w in &WOKEN { w.store(false, Ordering::SeqCst); } }
+    pub fn woken() -> Vec<bool> { WOKEN.iter().map(|w| w.load(Ordering::SeqCst)).collect() }
+}
+
+fn run_wakers(sink: &mut Sink, asyncf: bool) {
+    let mut n = 0;
+    let mut case = |sink: &mut Sink, what: &str| { n += 1; sink.case(&format!("NW{n}:{what}")); };
+    let poll_s = |s: &mut Subscriber<T>, w: &Waker| { let mut cx = Context::from_waker(w); match Pin::new(s).poll_next(&mut cx) { Poll::Ready(Some(t)) => format!("Ready({})", t.0), Poll::Ready(None) => "End".into(), Poll::Pending => "Pending".to_string() } };
+    if !asyncf {
+        // (a) same data pointer, different vtables: every pending subscriber's waker is woken by set / by the close
+        for by_close in [false, true] { for nsub in [2usize, 3, 4] { for unique in [false, true] {
+            case(sink, "slotwakers");
+            slotw::reset();
+            let (mut subs, shared, uniq): (Vec<Subscriber<T>>, Option<SharedObservable<T>>, Option<Observable<T>>) = if unique {
+                let o = Observable::new(T(1)); ((0..nsub).map(|_| Observable::subscribe(&o)).collect(), None, Some(o))
+            } else { let o = SharedObservable::new(T(1)); ((0..nsub).map(|_| o.subscribe()).collect(), Some(o), None) };
+            for (k, s) in subs.iter_mut().enumerate() { let r = poll_s(s, &slotw::waker(k)); if r != "Pending" { sink.oracle_fail("C01", &format!("a subscriber that has seen the current value answers {r}")); } }
+            let mut uniq = uniq;
+            if by_close { drop(shared); drop(uniq.take()); } else if let Some(o) = &shared { o.set(T(2)); } else if let Some(o) = uniq.as_mut() { Observable::set(o, T(2)); }
+            let w = slotw::woken();
+            if w[..nsub].iter().any(|x| !*x) {
+                sink.oracle_fail("C02,C01", &format!("{nsub} pending subscribers whose wakers share their data pointer and differ in their vtable: woken after {} = {:?}", if by_close { "the drop of the observable" } else { "a set" }, &w[..nsub]));
+            }
+            sink.line("xcf nw slot", "ok"); sink.nontrivial();
+        } } }
+        // (b) many registrations between two updates: 40 pending subscribers; one pending subscriber and another polled 40 times
+        for by_close in [false, true] {
+            case(sink, "manywakers");
+            let o = SharedObservable::new(T(1));
+            let mut subs: Vec<(Subscriber<T>, Arc<Flag>, Waker)> = (0..40).map(|_| { let (f, w) = flag_waker(); (o.subscribe(), f, w) }).collect();
+            for (s, _, w) in subs.iter_mut() { poll_s(s, w); }
+            let first = { let (f, w) = flag_waker(); let mut s = o.subscribe(); poll_s(&mut s, &w); (s, f) };
+            let mut busy = o.subscribe();
+            for _ in 0..40 { let (_f, w) = flag_waker(); poll_s(&mut busy, &w); }
+            if by_close { drop(o); } else { o.set(T(2)); }
+            let missed = subs.iter().filter(|(_, f, _)| !f.0.load(Ordering::SeqCst)).count();
+            if missed > 0 || !first.1 .0.load(Ordering::SeqCst) {
+                sink.oracle_fail("C02,C01", &format!("41 pending subscribers and 40 further registrations of a re-polled one: {} were not woken by {}", missed + (!first.1 .0.load(Ordering::SeqCst)) as usize, if by_close { "the drop of the last owner" } else { "a set" }));
+            }
+            sink.line("xcf nw many", "ok"); sink.nontrivial();
+        }
+        // (c) one next() / next_ref() future polled Pending several times with different wakers: the latest must be woken
+        for which in [0u8, 1] { for polls in [2usize, 3] { for by_close in [false, true] {
+            case(sink, "futurerepoll");
+            let o = SharedObservable::new(T(1));
+            let mut s = o.subscribe();
+            let flags: Vec<(Arc<Flag>, Waker)> = (0..polls).map(|_| flag_waker()).collect();
+            let mut bad = None;
+            if which == 0 {
+                let mut f = std::pin::pin!(s.next());
+                for (_, w) in &flags { let mut cx = Context::from_waker(w); if !f.as_mut().poll(&mut cx).is_pending() { bad = Some("next()"); } }
+                if by_close { drop(o); } else { o.set(T(2)); }
+                let (_g, w) = flag_waker(); let mut cx = Context::from_waker(&w);
+                let r = f.as_mut().poll(&mut cx);
+                let want = if by_close { None } else { Some(2) };
+                if r.map(|o| o.map(|t| t.0)) != Poll::Ready(want) { sink.oracle_fail("C01", "a pending next() future re-polled after the update / the close does not complete with it"); }
+            } else {
+                let mut f = std::pin::pin!(s.next_ref());
+                for (_, w) in &flags { let mut cx = Context::from_waker(w); if !f.as_mut().poll(&mut cx).is_pending() { bad = Some("next_ref()"); } }
+                if by_close { drop(o); } else { o.set(T(2)); }
+            }
+            if let Some(b) = bad { sink.oracle_fail("C01", &format!("{b} of a subscriber that has seen the current value is ready")); }
+            if !flags.last().unwrap().0 .0.load(Ordering::SeqCst) {
+                sink.oracle_fail("C02,C01", &format!("one {} future polled Pending {polls} times, each time with another waker: the waker of the latest poll is not woken by {}", if which == 0 { "next()" } else { "next_ref()" }, if by_close { "the drop of the last owner" } else { "a set" }));
+            }
+            sink.line("xcf nw repoll", "ok"); sink.nontrivial();
+        } } }
+    }
+    // (d) counts while a next() / next_ref() future of a subscriber is pending (default flavour: one reference per subscriber)
+    if !asyncf {
+        for which in [0u8, 1] { for unique in [false, true] {
+            case(sink, "countspending");
+            let (_f, w) = flag_waker();
+            let mut cx = Context::from_waker(&w);
+            if unique {
+                let o = Observable::new(T(1));
+                let mut s = Observable::subscribe(&o);
+                let _s2 = Observable::subscribe(&o);
+                let c = if which == 0 { let mut f = std::pin::pin!(s.next()); let _ = f.as_mut().poll(&mut cx); Observable::subscriber_count(&o) } else { let mut f = std::pin::pin!(s.next_ref()); let _ = f.as_mut().poll(&mut cx).is_pending(); Observable::subscriber_count(&o) };
+                if c != 2 { sink.oracle_fail("C19", &format!("Observable::subscriber_count is {c} with 2 live subscribers while a {} future of one of them is pending", if which == 0 { "next()" } else { "next_ref()" })); }
+            } else {
+                let o = SharedObservable::new(T(1));
+                let o2 = o.clone();
+                let mut s = o.subscribe();
+                let c = if which == 0 { let mut f = std::pin::pin!(s.next()); let _ = f.as_mut().poll(&mut cx); (o.observable_count(), o.subscriber_count(), o.strong_count(), o.weak_count()) } else { let mut f = std::pin::pin!(s.next_ref()); let _ = f.as_mut().poll(&mut cx).is_pending(); (o.observable_count(), o.subscriber_count(), o.strong_count(), o.weak_count()) };
+                if c != (2, 1, 3, 0) { sink.oracle_fail("C19", &format!("counts (observable, subscriber, strong, weak) are {c:?} with 2 clones and 1 subscriber while a {} future of the subscriber is pending", if which == 0 { "next()" } else { "next_ref()" })); }
+                drop(o2);
+            }
+            sink.line("xcf nw counts", "ok"); sink.nontrivial();
+        } }
+    }
 }
 
 // ---------------------------------------------------------------------------------------------------------
